@@ -213,6 +213,22 @@ fn check_type<T: Elem, U: Elem>(rep: &mut Report, r: &mut Rng, case: u64, miri: 
         }
         rep.count("bulk_setters_on_used_builders", 2);
     }
+    // the same numbers held in a fixed-size array (what `call_typed_beve("/x", &[a, b, c])` serializes): same bytes as the bulk
+    // encoding of the slice, and decodable by the bulk decoder
+    if n >= 3 && case % 2 == 0 {
+        let arr3: [T; 3] = [xs[0], xs[1], xs[2]];
+        match Message::builder().body_beve(&arr3) {
+            Ok(b) => {
+                let g = b.build();
+                let bulk3 = Message::builder().body_typed_slice(&arr3[..]).build();
+                if g.body != bulk3.body {
+                    rep.violation(format!("C08:bulk-vs-generic-bytes:array:{}", T::NAME), format!("[{}; 3] through body_beve: {} != bulk body {}", T::NAME, hex_trunc(&g.body, 40), hex_trunc(&bulk3.body, 40)), desc.clone());
+                }
+                rep.count("fixed_size_arrays_through_the_generic_encoder", 1);
+            }
+            Err(e) => rep.violation(format!("C08:generic-encode-failed:array:{}", T::NAME), e.to_string(), desc.clone()),
+        }
+    }
     if n > 0 && bulk.body != generic.body {
         rep.violation(format!("C08:bulk-vs-generic-bytes:{}", T::NAME), format!("{} x{n}: bulk body {} != generic body {}", T::NAME, hex_trunc(&bulk.body, 40), hex_trunc(&generic.body, 40)), desc.clone());
     }
